@@ -580,9 +580,9 @@ func checkIdentityBases(k know, ms *yang.Modules, f findings, skip func(*yang.Mo
 	var walk func(e *yang.Entry)
 	walk = func(e *yang.Entry) {
 		if w, ok := want[e.Path()]; ok && idBaseOf(e) != w {
-			f.add("identity scope: the identity base of %s is %s, the scope where the grouping is defined gives %s%s", e.Path(), idBaseOf(e), w, identClause)
+			f.add("identity scope [a prefixed base denotes the module that the FILE writing it imports under that prefix - the defining scope of the grouping]: the identity base of %s is %s, the scope where the grouping is defined gives %s%s", e.Path(), idBaseOf(e), w, identClause)
 		} else if ok && strings.Join(idValsOf(e), " ") != strings.Join(vals[e.Path()], " ") {
-			f.add("identity scope: the identities derived from the base %s of %s are %v; resolving the base of every identity statement in the file that holds it gives %v%s",
+			f.add("identity scope [a prefixed base denotes the module that the FILE writing it imports under that prefix - the defining scope of the grouping]: the identities derived from the base %s of %s are %v; resolving the base of every identity statement in the file that holds it gives %v%s",
 				w, e.Path(), idValsOf(e), vals[e.Path()], identClause)
 		}
 		for _, key := range lib.SortedKeys(e.Dir) {
@@ -1061,7 +1061,7 @@ func checkCorpus(k know, ms *yang.Modules, ix astIndex, f findings) {
 			got = idBaseOf(e)
 		}
 		if got != want.IdBase {
-			f.add("identity scope: the identity base of %s is %s, the scope where the grouping is defined gives %s%s", want.Path, got, want.IdBase, identClause)
+			f.add("identity scope [a prefixed base denotes the module that the FILE writing it imports under that prefix - the defining scope of the grouping]: the identity base of %s is %s, the scope where the grouping is defined gives %s%s", want.Path, got, want.IdBase, identClause)
 		}
 	}
 	for _, want := range k.ExpectExtras {
